@@ -15,7 +15,7 @@ ID = "C01"
 TAG = pc.TAG
 EXTRACT = pc.EXTRACT
 DRIVER = pc.DRIVER
-COQ_FILES = ["FA/Proofs/PipelineFacts.v", "FA/Proofs/PipelineSem.v", "FA/Proofs/PipelineCapture.v", "FA/Proofs/PipelineSimp.v", "FA/Properties/C01.v"]
+COQ_FILES = ["FA/Proofs/PipelineFacts.v", "FA/Proofs/PipelineSem.v", "FA/Proofs/PipelineCapture.v", "FA/Proofs/PipelineSimp.v", "FA/Proofs/PipelineAdm.v", "FA/Properties/C01.v"]
 
 LEVEL = ("Coq theorems over the composed model Model/Pipeline.v (acquire -> sugar -> follow -> Op(parent, lambda) with "
          "callback metadata -> terminal -> remove_empty -> ext, agg, simplify; node names and argument orders read from "
@@ -29,7 +29,9 @@ LEVEL = ("Coq theorems over the composed model Model/Pipeline.v (acquire -> suga
          "those chains mean what Python computes after ext, agg AND simplify with no hypothesis about any component, "
          "provided the query reaching the simplifier is admissible (well formed, no reserved arg_N names, parameters "
          "unknown to the backend as functions, no First; decided by admissible_is_decided) and the backend meets C02's "
-         "backend_ok.  Proved relative to named hypotheses about component models: query_means_chain and "
+         "backend_ok; for string / ast chains fluent_query_end_to_end_plain derives all of that from a boolean condition "
+         "on the chain itself (simplifiable_chain: per lowered lambda, checked after ext and agg of that lambda) plus "
+         "nofun for the listed parameter names.  Proved relative to named hypotheses about component models: query_means_chain and "
          "query_passes_no_first (capture_sound, follow_sound: typed datasets, general callables), passes_preserve_meaning "
          "(simp_ok: queries with First).  Model tied to the code by exact comparison of the AST handed to the executor on "
          "generated programs; the property itself checked on the implementation by executing the chains.")
